@@ -7,6 +7,9 @@ NAMES = [
     "PA", "PAo", "PB", "IDR", "CA0", "CA1", "CB0", "SA0", "SA1", "SB0", "SU", "RA0", "RA0k", "RA1", "RB0", "RAx",
     "BAT", "WA", "HBA", "GWR", "CFG", "CFGU", "TIM", "DSC", "LOG", "BAD", "CU0",
 ]
+# requests that carry the ack/echo flag, and the gateway's own node id 0 presenting itself and being asked
+ACKED = ["1;255;3;1;6;0", "1;255;3;1;1;", "255;255;3;1;3;", "9;255;3;1;6;0"]
+NODE0 = ["0;255;0;0;18;{v}", "0;1;0;0;3;", "0;1;1;0;2;1", "0;1;2;0;2;"]
 
 
 class C05Spec(explore.Spec):
@@ -16,6 +19,7 @@ class C05Spec(explore.Spec):
         out = [{"version": v, "cb": None} for v in ("1.4", "1.5", "2.0", "2.1", "2.2")]
         if tier == "thorough":
             out += [{"version": "2.2", "cb": None, "flavour": "async"}, {"version": "2.2", "cb": None, "transport": "mqtt"}]
+        out += [{"version": v, "cb": None, "focus": "node0", "depth": 5} for v in (("1.4", "2.2") if tier == "quick" else ("1.4", "1.5", "2.0", "2.1", "2.2"))]
         return out
 
     def alphabet(self, cfg):
@@ -36,6 +40,19 @@ class C05Spec(explore.Spec):
             ("rx", "2;255;3;0;1;", 2**31 - 1, 10800),
             ("rx", "1;255;3;0;1;", 0, 10800),
         ]
+        if cfg.get("flavour") != "async" and cfg.get("transport") != "mqtt":
+            # two lines queued before the poll thread runs (one read carrying both): each gets its own reply
+            t = alpha.lines(v)
+            extra += [
+                ("rx2", t["SU"], "8;0;1;0;2;1"),  # two different unknown nodes
+                ("rx2", t["SU"], t["RAx"]),  # an unknown node and an unknown child of A
+                ("rx2", t["CFG"], t["CFGB"]),
+            ]
+        extra += [alpha.rx(x) for x in ACKED]
+        if cfg.get("focus") == "node0":
+            # small alphabet around the gateway's own node id 0 (a gateway with local sensors presents as node 0)
+            evs = [alpha.rx(x.replace("{v}", v)) for x in NODE0] + alpha.events(v, ["PA", "CA0", "RA0", "CFG", "GWR", "BAT"])
+            return evs + [alpha.rx("0;255;3;0;6;0"), alpha.rx("0;255;3;0;11;gw sketch"), alpha.rx("0;2;1;0;2;1")]
         for ev in alpha.events(v, NAMES) + extra:
             if ev not in evs:
                 evs.append(ev)
@@ -44,6 +61,8 @@ class C05Spec(explore.Spec):
     def roots(self, cfg):
         t = alpha.lines(cfg["version"])
         roots = [()]
+        if cfg.get("focus"):
+            return roots
         if "WA" in t:
             # A presented with an older version, asleep, both children reported; B known
             roots.append(tuple(alpha.rx(t[n]) for n in ("PAo", "CA0", "CA1", "SA0", "WA", "PB", "CB0")))
@@ -66,6 +85,7 @@ RULE = (
 ASSUMPTIONS = [
     "serial-like sync world; pump = real _poll_queue body run to idle after every event",
     "virtual clock with fake UTC offsets +03:00 and -09:30; expected time reply = epoch + offset computed by the harness",
+    "internal commands emitted by the gateway carry ack flag 0: the flag asks the receiver for an echo, and the echo of a config/time/id answer is again a valid request (set commands answering a value request are not judged on the flag)",
     "controller values are wire-carriable (no ';', no line breaks) in this alphabet; OTA replies are C10's",
 ]
 
